@@ -84,7 +84,10 @@ Definition classify (keys : keyset) (algs : list string) (current_issuer : strin
 
 Inductive pres := PMatch | PNoMatch | PBad.      (* path.Match *)
 
-Record lclient := { l_id : string; l_post : list string; l_globs : option (list string) }.
+(* l_globs = Some gs: the client opted in to globs (implements op.HasRedirectGlobs) and gs is its
+   PostLogoutRedirectURIGlobs(); l_auth_globs = its RedirectURIGlobs(), the globs for the
+   AUTHORIZATION redirect_uri - registered for another purpose, nothing on this endpoint reads them *)
+Record lclient := { l_id : string; l_post : list string; l_globs : option (list string); l_auth_globs : list string }.
 
 Inductive efault := EF_None | EF_GetClient | EF_Terminate.
 
